@@ -307,7 +307,19 @@ func (x *Exec) ghostShape(g *GhostDecl, name string, fresh bool) Value {
 		}
 		return v
 	}
-	return Scalar(mk(name, g.Sort), nil)
+	v := Scalar(mk(name, g.Sort), nil)
+	v.T = x.ghostType(g)
+	return v
+}
+
+func (x *Exec) ghostType(g *GhostDecl) types.Type {
+	if g.Elem == "" || g.Sort != SRef {
+		return nil
+	}
+	if o := x.pkg.P.Types.Scope().Lookup(g.Elem); o != nil {
+		return o.Type()
+	}
+	return nil
 }
 
 // ---- selectors -----------------------------------------------------------
